@@ -7,6 +7,10 @@ fn lehmer_guess_dword(mut xbar: DoubleWord, mut ybar: DoubleWord) -> (Word, Word
         // non-negative and not larger than y for EVERY pair of operands with these leading double words; identity on failure
         leh_guess_post(xbar as int, ybar as int, ret.0 as int, ret.1 as int, ret.2 as int, ret.3 as int, SignedWord::MAX as int),
 @*/
+/*@[exact]
+        // exact Jebelean condition for both rows (variant `exact`: FAILS on the unchanged tree, see lib/leh_guess_lemmas.rs)
+        leh_guess_exact(xbar as int, ybar as int, ret.0 as int, ret.1 as int, ret.2 as int, ret.3 as int),
+@*/
 {
     debug_assert!(xbar >= ybar);
     const COEFF_LIMIT: DoubleWord = SignedWord::MAX as DoubleWord;
@@ -27,6 +31,13 @@ fn lehmer_guess_dword(mut xbar: DoubleWord, mut ybar: DoubleWord) -> (Word, Word
             b > 0 ==> xbar as int + a as int <= Y0,
             c > 0 ==> ybar as int + d as int <= Y0,
             d > c, b + 1 >= a,
+            b == 0 || (c >= a && d >= b) || xbar as int + a as int <= ybar as int - c as int,
+    @*/
+    /*@[exact]
+            b == 0 || (c >= a && d >= b && ybar as int + d as int <= xbar as int - b as int)
+                || (a >= c && b >= d && xbar as int + a as int <= ybar as int - c as int),
+    @*/
+    /*@
         decreases ybar,
     @*/
     {
@@ -77,7 +88,7 @@ fn lehmer_guess_dword(mut xbar: DoubleWord, mut ybar: DoubleWord) -> (Word, Word
         if r > COEFF_LIMIT || s > COEFF_LIMIT {
             break;
         }
-        if t < s || t + r > xbar - c {
+        if t < s || t + r > xbar - b {
             break;
         }
         /*@ proof {
